@@ -32,4 +32,22 @@ def units(ctx):
     from vlib.pyvc.unit import contract_unit
     us += [contract_unit(c, world_setup=utils.setup_input)
            for c in utils.input_contracts()]
+    from props._common import bounded_unit
+    us.append(bounded_unit(
+        'bounded:c09-effects', 'c09_effects.py',
+        'BOUNDED: 66 library expressions over mutable host lists / dicts / '
+        'sets x both convertInputData modes: deep before/after comparison, '
+        'aliasing probe (the result is mutated in place), context chain '
+        'variables and functions, statement reuse histories'))
     return us
+
+
+def post(ctx, results):
+    from props._common import attach_replay
+    b = [o for r in results for o in r['obligations']
+         if o['name'] == 'bounded:c09-effects']
+    rep = b[0].get('replay') if b else None
+    if rep and rep.get('status') == 'failed':
+        attach_replay(results, lambda o: not o.get('bounded') and
+                      o.get('kind') in ('post', 'raises', 'frame'), rep)
+    return results
